@@ -119,6 +119,11 @@ pub struct QuerySpec {
     /// (`SELECT k0, max(a0) AS m FROM (...) AS sub GROUP BY k0`): one row per inner key tuple.
     #[serde(default)]
     pub outer_group_by: bool,
+    /// Bare columns in the SELECT list of a grouped query that are neither keys nor aggregated
+    /// (`SELECT city, age, count(*) ... GROUP BY city`): the parser takes FIRST(column); the DP
+    /// compiler has to refuse such a query.
+    #[serde(default)]
+    pub extra_select: Vec<(String, String)>,
 }
 
 impl QuerySpec {
@@ -186,6 +191,7 @@ impl QuerySpec {
                 None => format!("{} AS {}", k.expr, k.alias),
             })
             .collect();
+        items.extend(self.extra_select.iter().map(|(e, a)| format!("{} AS {}", e, a)));
         items.extend(self.aggs.iter().map(|a| format!("{} AS {}", a.sql(population), a.alias)));
         let mut s = format!("SELECT {} FROM {}{}", items.join(", "), self.from_clause(), self.where_clause());
         if !self.keys.is_empty() {
